@@ -396,6 +396,8 @@ class Term:
 
         It leaves the term as it is. For a power in the math sense do ``I(x ** n)`` or ``{x ** n}``.
         """
+        if isinstance(other, Intercept):  # the literal 1 is resolved as an Intercept
+            return self
         c = other.components
         if len(c) == 1 and isinstance(c[0].name, int) and c[0].name >= 1:
             _log.warning(
@@ -980,6 +982,8 @@ class Model:
         model: :class:`.Model`
             A new instance of the model with all the terms computed.
         """
+        if isinstance(other, Intercept):  # the literal 1 is resolved as an Intercept
+            return self
         if isinstance(other, Term) and len(other.components) == 1:
             value = other.components[0].name
             if isinstance(value, int) and value >= 1:
